@@ -134,6 +134,29 @@ func (v *virtualClock) set(t int64)    { v.mu.Lock(); v.now = t; v.mu.Unlock() }
 type errCloseAgent struct {
 	*stun.Agent
 	fail bool
+	// L2: the next Start of a listed id blocks until released; released with "fail" it returns ErrAgentClosed
+	// without reaching the real agent (a ClientAgent is allowed to fail)
+	mu        sync.Mutex
+	blockIDs  [][]byte
+	blockedCh chan struct{}
+	releaseCh chan bool
+}
+
+func (a *errCloseAgent) Start(id [stun.TransactionIDSize]byte, deadline time.Time) error {
+	a.mu.Lock()
+	for i, b := range a.blockIDs {
+		if bytes.Equal(b, id[:]) {
+			a.blockIDs = append(a.blockIDs[:i], a.blockIDs[i+1:]...)
+			a.mu.Unlock()
+			a.blockedCh <- struct{}{}
+			if ok := <-a.releaseCh; !ok {
+				return stun.ErrAgentClosed
+			}
+			return a.Agent.Start(id, deadline)
+		}
+	}
+	a.mu.Unlock()
+	return a.Agent.Start(id, deadline)
 }
 
 func (a *errCloseAgent) Close() error {
@@ -145,6 +168,7 @@ func (a *errCloseAgent) Close() error {
 }
 
 type clientExec struct {
+	ag       *errCloseAgent
 	tickDone chan struct{} // L2: the collector call that is (or was) suspended in Write
 	blocked  int
 	startRet chan error // L2: a Start that is suspended in its first Write
@@ -267,8 +291,11 @@ func (e *executor) clientOp(t []string) (string, bool) {
 		x = &clientExec{clock: &virtualClock{}, coll: &manualCollector{}, noClose: t[4] == "1"}
 		x.conn = &clConn{inbox: make(chan []byte), readEntered: make(chan struct{}), kick: make(chan struct{}),
 			closed: make(chan struct{}), closeErr: t[7] == "1", blockedCh: make(chan struct{}), releaseCh: make(chan bool)}
+		// the scripted agent and the scripted connection share the "blocked"/"release" channels: at most one
+		// call is suspended at a time
+		x.ag = &errCloseAgent{Agent: stun.NewAgent(nil), fail: t[6] == "1", blockedCh: x.conn.blockedCh, releaseCh: x.conn.releaseCh}
 		opts := []stun.ClientOption{stun.WithClock(x.clock), stun.WithCollector(x.coll),
-			stun.WithRTO(time.Duration(atoi(t[2]))), stun.WithAgent(&errCloseAgent{Agent: stun.NewAgent(nil), fail: t[6] == "1"})}
+			stun.WithRTO(time.Duration(atoi(t[2]))), stun.WithAgent(x.ag)}
 		att := atoi(t[3])
 		if att == 0 {
 			opts = append(opts, stun.WithNoRetransmit)
@@ -328,6 +355,11 @@ func (e *executor) clientOp(t []string) (string, bool) {
 		x.conn.mu.Lock()
 		x.conn.blockIDs = append(x.conn.blockIDs, unhex(t[2]))
 		x.conn.mu.Unlock()
+		return "ok", true
+	case t[1] == "blockagent" && len(t) == 3:
+		x.ag.mu.Lock()
+		x.ag.blockIDs = append(x.ag.blockIDs, unhex(t[2]))
+		x.ag.mu.Unlock()
 		return "ok", true
 	case t[1] == "tick2" && len(t) == 3:
 		// the collector fires on its own goroutine; its callback may come to rest inside Connection.Write
@@ -422,7 +454,7 @@ func (x *clientExec) closeOnce() (error, string) {
 		case <-time.After(3 * time.Millisecond):
 		}
 	}
-	deadline := time.After(20 * time.Second)
+	deadline := time.After(10 * time.Second)
 loop:
 	for {
 		select {
@@ -601,10 +633,13 @@ func (x *clientExec) awaitTick() string {
 	case <-time.After(10 * time.Second):
 		return "tick-hang"
 	}
-	if x.blocked == 0 { // the script of blocking writes applies to this collector call only
+	if x.blocked == 0 { // the script of blocking calls applies to this collector call only
 		x.conn.mu.Lock()
 		x.conn.blockIDs = nil
 		x.conn.mu.Unlock()
+		x.ag.mu.Lock()
+		x.ag.blockIDs = nil
+		x.ag.mu.Unlock()
 	}
 	return fmt.Sprintf("%s blocked=%d", x.outs(), x.blocked)
 }
